@@ -19,14 +19,21 @@ class Clause:
         self.cid, self.fn, self.funcs, self.doc = cid, fn, tuple(funcs), doc
 
 
-def clause(cid, funcs=()):
+REPLAY_ONLY = set()
+
+
+def clause(cid, funcs=(), replay_only=False):
     """Register a run-time contract clause.  `funcs`: the teneva functions (qualified, e.g.
     'act_two.add') whose contract this clause evaluates — used to pair T3 failures with failed T1
-    obligations of the same function (the falsifier role)."""
+    obligations of the same function (the falsifier role).  `replay_only`: the clause states something OUTSIDE the
+    property (an observation about an undocumented / unquantified option); it is kept so that a recorded case can be replayed
+    but no case is generated for it and it is exempt from the "every clause gets a case" guard."""
     def deco(fn):
         if cid in CLAUSES and CLAUSES[cid].fn.__code__ is not fn.__code__:
             raise RuntimeError('duplicate clause id ' + cid)
         CLAUSES[cid] = Clause(cid, fn, funcs, (fn.__doc__ or '').strip())
+        if replay_only:
+            REPLAY_ONLY.add(cid)
         return fn
     return deco
 
